@@ -612,12 +612,16 @@ mod repr {
     const fn trailing_ones_large(words: &[Word]) -> usize {
         // Const equivalent to:
         // let one_words = words.iter().position(|&word| word != Word::MAX).unwrap();
-        let mut one_words = 1;
+        let mut one_words = 0;
         while one_words < words.len() {
             if words[one_words] != Word::MAX {
                 break;
             }
             one_words += 1;
+        }
+        if one_words == words.len() {
+            // all bits are ones
+            return one_words * WORD_BITS_USIZE;
         }
 
         let one_bits = words[one_words].trailing_ones() as usize;
